@@ -60,6 +60,23 @@ theorem linked_frame_round_trips_under_any_chunking (E : Env) (okL : LZ4V.Model.
   obtain ⟨h1, h2⟩ := hv.2 c' rest' out' hc
   exact ⟨h1, h2, (LZ4V.C08.complete_only_if_spec E hE c [] _ hr sched c' rest' out' hc).2⟩
 
+/-- **… and with a dictionary** (CDict attached or raw dictionary loaded, linked blocks): the decoder context being ready with the dictionary `dict`
+    (`LZ4F_decompress_usingDict`), any chunking: never an error, and on completion exactly the blocks fed -/
+theorem dictionary_frame_round_trips_under_any_chunking (E : Env) (okL : LZ4V.Model.FrameLinked.EnvOKL E) (hE : DecBounded E)
+    (hashOf : Array UInt8 → Bool → Nat → Nat) (p : Prefs) (hb : 4 ≤ p.bsid ∧ p.bsid ≤ 7) (hcs64 : p.contentSize < 256 ^ 8) (hd32 : p.dictID < 256 ^ 4)
+    (dict : Bytes) (S0 : LZ4V.Model.FastX.XState) (hJ0 : LZ4V.Model.FastX.JX S0) (addr : Nat) (d : Array UInt8)
+    (hT : LZ4V.Model.FastX.IsTail d.toList dict) (attached : Bool) (lops : List LZ4V.Model.FrameLinked.LOp)
+    (hleg : LZ4V.Model.FrameLinked.LegalSizes p lops)
+    (hcs : p.contentSize = 0 ∨ p.contentSize = (LZ4V.Model.FrameLinked.contentOf lops).length)
+    (c : Ctx) (hr : LZ4V.C08.Ready c dict) (sched : List (Nat × Nat)) :
+    (∀ code, session E c (LZ4V.Model.FrameLinked.frameFrom E hashOf p S0
+        ((if attached then LZ4V.Model.FrameLinked.LOp.attach addr d else LZ4V.Model.FrameLinked.LOp.load addr d) :: lops)) sched [] ≠ .failed code) ∧
+    (∀ c' rest' out', session E c (LZ4V.Model.FrameLinked.frameFrom E hashOf p S0
+        ((if attached then LZ4V.Model.FrameLinked.LOp.attach addr d else LZ4V.Model.FrameLinked.LOp.load addr d) :: lops)) sched [] = .complete c' rest' out' →
+      out' = LZ4V.Model.FrameLinked.contentOf lops ∧ rest' = []) := by
+  have hF := LZ4V.Model.FrameLinked.frame_with_dictionary_parses E okL hashOf p hb hcs64 hd32 dict S0 hJ0 addr d hT attached lops hleg hcs
+  exact LZ4V.C08.valid_frame_decodes E hE c dict _ hr _ (LZ4V.Model.FrameLinked.contentOf lops) [] hF sched
+
 /-- the hypotheses on the environment are satisfiable together -/
 example (hash : Bytes → Nat) (h32 : ∀ l, hash l < 4294967296) : EnvOK (specEnv hash) ∧ DecBounded (specEnv hash) :=
   ⟨specEnv_ok hash h32, specEnv_bounded hash⟩
